@@ -192,7 +192,7 @@ def add_query_argument (url name : Str) (value : Option Str) (doQuote : Bool := 
   let base := (splitQuery url).1
   let query :=
     match (splitQuery url).2 with
-    | some q => if q ≠ [] then q ++ '&' :: arg else arg
+    | some q => if q = [] then arg else q ++ '&' :: arg
     | none => arg
   base ++ '?' :: query ++ (match fragment with | some f => '#' :: f | none => [])
 
